@@ -278,6 +278,37 @@ def run_driver(jobs, script="driver.mjs", timeout=600, nproc=NCPU):
     return out
 
 
+def run_engine(jobs, timeout=600, nproc=NCPU):
+    """Run jobs through the Rust engine harness (one JSON per line); returns results in job order."""
+    if not jobs:
+        return []
+    exe = os.path.join(TARGET, "release", "engine")
+    chunks = [jobs[i::nproc] for i in range(nproc) if jobs[i::nproc]]
+
+    def one(chunk):
+        inp = "\n".join(json.dumps(j) for j in chunk) + "\n"
+        rc, out, _ = sh([exe], input=inp, timeout=timeout)
+        res = {}
+        for line in out.splitlines():
+            if line.startswith("{"):
+                r = json.loads(line)
+                res[r["id"]] = r
+        return res
+
+    merged = {}
+    with cf.ThreadPoolExecutor(nproc) as ex:
+        for r in ex.map(one, chunks):
+            merged.update(r)
+    out = []
+    for j in jobs:
+        r = merged.get(j["id"])
+        if r is None:
+            out.append({"crash": "no result (process aborted?)"})
+        else:
+            out.append(r)
+    return out
+
+
 # ---------------------------------------------------------------- known findings
 def load_known(prop):
     path = os.path.join(VERIF, "known-findings.jsonl")
